@@ -142,7 +142,7 @@ fn shape_checks(which: usize, input: &[u8], ranges: &[Range<usize>]) -> Vec<(&'s
     f
 }
 
-fn check_input(input: &[u8], out: &mut Local) {
+fn check_input(input: &[u8], skip_bstr_unicode: bool, out: &mut Local) {
     let as_str = std::str::from_utf8(input).ok();
     for which in 0..TOKENIZERS.len() {
         #[cfg(not(feature = "unicode"))]
@@ -152,7 +152,11 @@ fn check_input(input: &[u8], out: &mut Local) {
         let name = TOKENIZERS[which];
         // --- [u8]
         out.eval();
-        let br = match guard(|| tokenize_bytes(which, input).into_iter().map(|t| t.to_vec()).collect::<Vec<Vec<u8>>>()) {
+        // (Miri stage: bstr's lazily built word/grapheme automata take minutes to initialise there)
+        let br = if skip_bstr_unicode && which >= 4 {
+            None
+        } else {
+            match guard(|| tokenize_bytes(which, input).into_iter().map(|t| t.to_vec()).collect::<Vec<Vec<u8>>>()) {
             Err(p) => {
                 out.violation("panic", format!("[u8]::tokenize_{} panicked: {} | input={}", name, p, show(input)));
                 None
@@ -167,6 +171,7 @@ fn check_input(input: &[u8], out: &mut Local) {
                     }
                     Ok(r) => Some(r),
                 }
+            }
             }
         };
         if let Some(r) = &br {
@@ -242,7 +247,7 @@ pub fn families() -> Vec<Box<dyn Family>> {
                 if input.iter().any(|b| !b.is_ascii_alphabetic()) {
                     out.nontrivial(&input);
                 }
-                check_input(&input, out);
+                check_input(&input, cfg.tiny, out);
             },
         ),
         family(
@@ -260,7 +265,7 @@ pub fn families() -> Vec<Box<dyn Family>> {
                     if !t.is_empty() {
                         out.nontrivial(t);
                     }
-                    check_input(t, out);
+                    check_input(t, cfg.tiny, out);
                 }
                 if std::str::from_utf8(&a).is_err() {
                     out.count("inputs_with_invalid_utf8");
